@@ -286,7 +286,8 @@ def round_(number, num_digits=0):
         # and https://gist.github.com/ejamesc/cedc886c5f36e2d075c5
 
     else:
-        return round(number, num_digits)
+        # builtin round() is half to even: round(25, -1) == 20
+        return type(number)(_round(number, num_digits, rounding=ROUND_HALF_UP))
 
 
 def _round(number, num_digits, rounding):
